@@ -889,6 +889,7 @@ type gOp struct {
 	used    int
 	cls     int
 	evs     []quic.VerifGenEvent
+	evs2    []quic.VerifGenEvent // callbacks to the second runner (AddConnRunner)
 	st      quic.VerifGenState
 }
 
@@ -921,6 +922,8 @@ func (o *gOp) coqOp() string {
 		return "GRemoveAll"
 	case "replace":
 		return u.App("GReplaceClosed", u.B(o.local), u.Z(o.t))
+	case "addrunner":
+		return "GAddRunner"
 	}
 	panic("bad gop")
 }
@@ -975,6 +978,8 @@ func (o *gOp) human() string {
 		return "RemoveAll"
 	case "replace":
 		return fmt.Sprintf("ReplaceWithClosed(local=%v,%d)", o.local, o.t)
+	case "addrunner":
+		return "AddConnRunner(second transport)"
 	}
 	return o.kind
 }
@@ -988,6 +993,8 @@ type genSession struct {
 	c        *cidRun
 	v        *quic.VerifGen
 	rt       *quic.VerifRouting // real routing table driven by the generator's callbacks (integrated cases)
+	has2     bool               // a second runner was added
+	routed2  map[string]bool    // what the second runner routes
 	ops      []*gOp
 	initial  []byte
 	client   []byte
@@ -1062,9 +1069,12 @@ func (s *genSession) do(o *gOp) *gOp {
 		o.cls = v.RemoveAll()
 	case "replace":
 		o.cls = v.ReplaceWithClosed(o.local, o.t)
+	case "addrunner":
+		o.cls = v.AddRunner()
 	}
 	o.used = v.Consumed()
 	o.evs = v.TakeEvents()
+	o.evs2 = v.TakeEvents2()
 	o.st = v.State()
 	s.ops = append(s.ops, o)
 	s.monitor(o)
@@ -1192,6 +1202,72 @@ func (s *genSession) monitor(o *gOp) {
 	}
 	if unret > maxIssued {
 		s.fail("over-cap", fmt.Sprintf("%d connection IDs issued and not retired, MaxIssuedConnectionIDs %d", unret, maxIssued))
+	}
+	// AddConnRunner: the second transport learns the client's original destination ID (while it is
+	// still kept) and the active IDs, then sees every callback the first runner sees
+	if o.kind == "addrunner" {
+		if !s.has2 {
+			s.has2 = true
+			s.routed2 = map[string]bool{}
+			want := map[string]bool{}
+			for q, id := range s.issued {
+				if !s.retired[q] {
+					want[string(id)] = true
+				}
+			}
+			if s.hasCli && !s.hsDone {
+				want[string(s.client)] = true
+			}
+			for _, e := range o.evs2 {
+				if e.Kind != 0 {
+					s.fail("runner2-snapshot", "AddConnRunner made a callback other than AddConnectionID")
+				} else {
+					s.routed2[string(e.CID)] = true
+				}
+			}
+			if !sameSet(s.routed2, want) || len(o.evs2) != len(want) {
+				s.fail("runner2-snapshot", fmt.Sprintf("second runner was told %s, the connection's IDs in use are %s", setStr(s.routed2), setStr(want)))
+			}
+		} else if len(o.evs2) != 0 {
+			s.fail("runner2-snapshot", "AddConnRunner for a known runner made callbacks")
+		}
+		if len(o.evs) != 0 {
+			s.fail("runner2-snapshot", "AddConnRunner made callbacks to the first runner")
+		}
+	} else if s.has2 {
+		key := func(e quic.VerifGenEvent) string {
+			ids := make([]string, len(e.IDs))
+			for i, id := range e.IDs {
+				ids[i] = string(id)
+			}
+			sort.Strings(ids)
+			return fmt.Sprintf("%d|%x|%v|%d|%q", e.Kind, e.CID, e.Local, e.Aux, ids)
+		}
+		cnt := map[string]int{}
+		for _, e := range o.evs {
+			if e.Kind == 0 || e.Kind == 1 || e.Kind == 3 {
+				cnt[key(e)]++
+			}
+		}
+		for _, e := range o.evs2 {
+			cnt[key(e)]--
+			switch e.Kind {
+			case 0:
+				s.routed2[string(e.CID)] = true
+			case 1:
+				delete(s.routed2, string(e.CID))
+			}
+		}
+		for k, v := range cnt {
+			if v != 0 {
+				s.fail("runner2-diverges", fmt.Sprintf("callbacks of the two runners differ in %s (%+d)", k[:1], v))
+			}
+		}
+		if o.kind == "removeall" && len(s.routed2) != 0 {
+			s.fail("runner2-leftover", fmt.Sprintf("%d connection IDs still routed on the second transport after RemoveAll", len(s.routed2)))
+		}
+	} else if len(o.evs2) != 0 {
+		s.fail("runner2-snapshot", "callbacks to a runner that was never added")
 	}
 	// (d)/(e) routing
 	switch o.kind {
@@ -1390,6 +1466,8 @@ func (c *cidRun) genCase(r *u.Rng, idx int, routed bool) {
 				}
 			}
 			s.do(&gOp{kind: "remove", t: t})
+		case x < 96 && !routed:
+			s.do(&gOp{kind: "addrunner"}) // a new path on a second transport (idempotent when repeated)
 		default:
 			now += int64(r.Intn(50))
 		}
